@@ -3,6 +3,8 @@
 set -e
 cd "$(dirname "$0")"
 python3 harness/build.py lib scalar >/dev/null
+# second library variant with src/xml + the tinyxml2 stand-in (C32, C37)
+if [ -f harness/build_xml.py ]; then python3 harness/build_xml.py lib >/dev/null; fi
 if [ -x translate/regen_all.py ]; then python3 translate/regen_all.py; fi
 cd lean
 lake build MjProof Drivers $(python3 ../tools/list_exes.py)
